@@ -221,3 +221,30 @@ def finish(res: Result, tier: str, t0: float, explanation: str, level: str = "ot
           f"abstained={n_abst} known={len(known_hit)} new={len(new)} functions={len(res.functions)} "
           f"wall={ev['wall_s']}s")
     return 1 if new else 0
+
+
+class Only(Relabel):
+    """like Relabel, but instances of rules that are not in the mapping are dropped (reuse of one sub-rule of another property)"""
+
+    def _keep(self, rule):
+        return rule in self._map
+
+    def ok(self, rule, instance, facts=None, nontrivial=True):
+        if self._keep(rule):
+            super().ok(rule, instance, facts, nontrivial)
+
+    def abstain(self, rule, instance, why):
+        if self._keep(rule):
+            super().abstain(rule, instance, why)
+
+    def fail(self, rule, where, construct, message, file="", line=0, facts=None, instance=None):
+        if self._keep(rule):
+            super().fail(rule, where, construct, message, file, line, facts, instance)
+
+    def fail_at(self, rule, func, construct, message, node=None, facts=None):
+        if self._keep(rule):
+            super().fail_at(rule, func, construct, message, node, facts)
+
+    def expect_count(self, rule, what, got, at_least):
+        if self._keep(rule):
+            super().expect_count(rule, what, got, at_least)
